@@ -148,6 +148,7 @@ struct SessionsModel : Monitor {
 	void on_tun_read(Task &t, const Bytes &p) override
 	{
 		if (&t != w->srv || p.size() < 24) return;
+		if ((p[4] >> 4) != 4) { lk.armed = false; w->probes["c18.not_ipv4_frames"]++; return; }     // no tunnel address in it: nobody owns such a frame
 		uint32_t dst = ((uint32_t)p[20] << 24) | (p[21] << 16) | (p[22] << 8) | p[23];
 		lk.armed = false;
 		for (auto &sl : slot) {
@@ -364,6 +365,13 @@ struct SessionsModel : Monitor {
 			// too short to contain a destination address: there is no session it could be "for"
 			char b[200]; snprintf(b, sizeof b, "a %zu-byte packet without a destination address was delivered to session %d at %s%s", pkt.size(), uid, dst.str().c_str(), rawmode ? " (raw)" : "");
 			w->S.violate("C04", "routing.no_address", b);
+			return;
+		}
+		if ((pkt[4] >> 4) != 4) {
+			// not an IPv4 packet (the kernel also hands IPv6 router solicitations and the like to the tun reader): it has no tunnel
+			// address as its destination, whatever octets lie where an IPv4 destination would be - "otherwise dropped"
+			char b[200]; snprintf(b, sizeof b, "a frame that is not IPv4 (version nibble %d) was delivered to session %d at %s%s", pkt[4] >> 4, uid, dst.str().c_str(), rawmode ? " (raw)" : "");
+			w->S.violate("C04", "routing.not_ipv4", b);
 			return;
 		}
 		uint32_t ipdst = ((uint32_t)pkt[20] << 24) | (pkt[21] << 16) | (pkt[22] << 8) | pkt[23];
@@ -641,6 +649,7 @@ J gen_sessions(uint64_t seed, const J &ov)
 	for (int i = 0; i < npk; i++) {
 		J op = J::obj(); op.set("ref", "abs"); op.set("t", when()); op.set("op", "tun"); op.set("at", "srv"); op.set("ser", (long long)++ser);
 		op.set("len", (int)r.range(40, 400)); op.set("body", "rnd"); op.set("src", "ext");
+		if (r.chance(0.06)) op.set("shape", "v6");     // an IPv6 frame whose octets 16..19 happen to spell a session's tunnel address
 		if (ffrag) { static const char *bodies[] = {"rnd", "rnd", "rnd", "text", "zero"}; op.set("body", bodies[r.range(0, 4)]); op.set("len", (int)(r.chance(0.25) ? r.range(1500, 9000) : r.chance(0.5) ? r.range(300, 1500) : r.range(40, 300))); }
 		int k = (int)r.range(0, 9);
 		if (k <= 6) op.set("dst", "m" + std::to_string(r.range(0, nm - 1)));
